@@ -61,7 +61,8 @@ def frames_roundtrip(cls: Const(MsgSerializable), f: Stream, *, first: Bytes):
     option(bounded=400, chains=True)
     requires(is_prefix(first, rest(f)))
     ensures(result is not None and result.to_bytes() == first and spos(f) == old(spos(f)) + len(first)
-            and first == frame(chain_magic(CHAIN), result.command, first[24:]))
+            and first == frame(chain_magic(CHAIN), result.command, first[24:])
+            and payload_as_prescribed(result, first[24:]))
 
 
 # ---- generator: random messages of every type, framed for the chain under test ----------------
@@ -90,14 +91,14 @@ def _rand_msg(rng):
         return i
     name = c.command
     if name == b'version':
-        m.nVersion = rng.choice([60002, 70001, 70015, 31402])     # versions whose fields msg_ser writes (>= 209)
+        m.nVersion = rng.choice([60002, 70001, 70001, 70002, 70015, 31402])     # versions whose fields msg_ser writes (>= 209)
         m.nServices = rng.getrandbits(64)
         m.nTime = rng.getrandbits(40)
         m.addrTo, m.addrFrom = addr(), addr()
         m.nNonce = rng.getrandbits(64)
         m.strSubVer = bytes(rng.getrandbits(8) for _ in range(rng.choice([0, 5, 252, 253])))
         m.nStartingHeight = rng.randint(-1, 2**31 - 1)
-        m.fRelay = rng.choice([True, True, 1])
+        m.fRelay = rng.choice([True, True, 1]) if m.nVersion < 70001 else rng.choice([True, False, 0, 1])
     elif name == b'addr':
         m.addrs = [addr() for _ in range(rng.randint(0, 3))]
     elif name in (b'inv', b'getdata', b'notfound'):
